@@ -4,11 +4,15 @@
 // fault-injecting target: every function whose sites are all expected to propagate obeys the
 // prefix law for every k, every function marked `violates` breaks it for some k.
 //
-// `// expect:` lists the expected kind of every call site of the following function, in source
-// order. Kinds q, tail, ret, bound_q, match_ret, tryclosure propagate; discarded / unknown do not.
+// (The cases of the third statement audit were validated the same way; drawsites_cases_owntry.rs is a
+// second input, scanned as a source tree of its own.)
 //
-// expect-textual-count: 61
-#![allow(dead_code, unused_variables, unused_must_use, unreachable_patterns, clippy::all)]
+// `// expect:` lists the expected kind of every call site of the following function, in source
+// order (a `macro_rules!` item with call sites outside any fn carries one too). Kinds q, tail, ret,
+// bound_q, match_ret, tryclosure propagate; discarded / unknown do not.
+//
+// expect-textual-count: 111
+#![allow(dead_code, unused_variables, unused_must_use, unreachable_patterns, unused_macros, unused_mut, clippy::all)]
 
 pub trait DrawTarget {
     type Error;
@@ -288,6 +292,300 @@ pub fn bad_bound_late<D: DrawTarget>(t: &mut D, c: bool) -> Result<(), D::Error>
 // expect: discarded
 pub fn bad_unit_fn<D: DrawTarget>(t: &mut D) {
     t.fill_solid(1).is_ok();
+}
+
+// ---- the third statement audit's false negatives ---------------------------------------------------
+
+// `?` / `return Err(..)` inside a closure WITHOUT braces (`|..| match / if / loop ..`): it only leaves
+// the closure; the function went on and returned Ok
+// violates
+// expect: discarded tail
+pub fn bad_braceless_closure_match<D: DrawTarget>(t: &mut D) -> Result<(), D::Error> {
+    let mut g = |t: &mut D, i: u32| match i {
+        0 => Ok::<(), D::Error>(()),
+        _ => {
+            t.fill_solid(i)?;
+            Ok(())
+        }
+    };
+    let _ = g(t, 1);
+    t.fill_solid(2)
+}
+
+// violates
+// expect: discarded tail
+pub fn bad_braceless_closure_if<D: DrawTarget>(t: &mut D) -> Result<(), D::Error> {
+    let g = move |t: &mut D, i: u32| if i > 0 {
+        t.fill_solid(i)?;
+        Ok::<(), D::Error>(())
+    } else {
+        Ok(())
+    };
+    let _ = g(t, 1);
+    t.fill_solid(2)
+}
+
+// violates
+// expect: discarded tail
+pub fn bad_braceless_closure_loop_ret<D: DrawTarget>(t: &mut D) -> Result<(), D::Error> {
+    let mut g = |t: &mut D, i: u32| loop {
+        match t.fill_solid(i) {
+            Err(e) => return Err(e),
+            Ok(()) => return Ok(()),
+        }
+    };
+    let _ = g(t, 1);
+    t.fill_solid(2)
+}
+
+// closure without arguments, `return <call>` inside a closure, or-pattern `|` in the argument list
+// violates
+// expect: discarded discarded discarded tail
+pub fn bad_more_closures<D: DrawTarget>(t: &mut D) -> Result<(), D::Error> {
+    let mut g = || match 1 {
+        _ => {
+            t.fill_solid(1)?;
+            Ok::<(), D::Error>(())
+        }
+    };
+    let _ = g();
+    let h = |t: &mut D, c: bool| {
+        if c {
+            return t.fill_solid(2);
+        }
+        Ok(())
+    };
+    let _ = h(t, true);
+    let k = |t: &mut D, (1 | _): u32| {
+        t.fill_solid(3)?;
+        Ok::<(), D::Error>(())
+    };
+    let _ = k(t, 1);
+    t.fill_solid(4)
+}
+
+// a closure with an explicit return type (the `,` of `Result<(), D::Error>` does not end it)
+// violates
+// expect: discarded tail
+pub fn bad_typed_closure<D: DrawTarget>(t: &mut D) -> Result<(), D::Error> {
+    let g = |t: &mut D| -> Result<(), D::Error> {
+        t.fill_solid(1)?;
+        Ok(())
+    };
+    let _ = g(t);
+    t.fill_solid(2)
+}
+
+// control: two-argument brace-less closure of try_fold, typed `move` closure of try_for_each
+// expect: tryclosure tryclosure tryclosure
+pub fn ok_more_try_closures<D: DrawTarget>(t: &mut D) -> Result<(), D::Error> {
+    (0..3u32).try_fold((), |_, i| t.fill_solid(i))?;
+    (0..2u32).try_for_each(move |i| -> Result<(), D::Error> {
+        t.fill_solid(i)?;
+        t.fill_solid(i + 5)
+    })
+}
+
+// control: a brace-less closure handed to a propagated try_for_each does propagate; a binary `|`
+// and a logical `||` before the call are not closures
+// expect: tryclosure tryclosure q tail
+pub fn ok_braceless_try_closure<D: DrawTarget>(t: &mut D, a: u32) -> Result<(), D::Error> {
+    (0..3u32).try_for_each(|i| match i {
+        0 => Ok(()),
+        _ => {
+            t.fill_solid(i)?;
+            t.fill_solid(i + 10)
+        }
+    })?;
+    let b = a | 4;
+    if a > 1 || b > 2 {
+        t.fill_solid(b)?;
+    }
+    t.fill_solid(a)
+}
+
+// the function's error type CONVERTS the target's error: `?` goes through `From` and the caller gets
+// another value. The type still mentions `D::Error`
+#[derive(Debug, PartialEq)]
+pub struct Wrap<E>(pub E, pub u32);
+impl<E> From<E> for Wrap<E> {
+    fn from(e: E) -> Self {
+        Wrap(e, 777)
+    }
+}
+
+// violates (the caller does not get the target's error value)
+// expect: unknown unknown
+pub fn bad_wrapped_error_type<D: DrawTarget>(t: &mut D) -> Result<(), Wrap<D::Error>> {
+    t.fill_solid(1)?;
+    t.fill_solid(2)?;
+    Ok(())
+}
+
+// an adapter whose own error type wraps the inner one: `Self::Error` is not the target's error
+pub struct Converting<T>(pub T);
+impl<T: DrawTarget> DrawTarget for Converting<T> {
+    type Error = Wrap<T::Error>;
+    // violates (the caller does not get the target's error value)
+    // expect: unknown
+    fn fill_solid(&mut self, a: u32) -> Result<(), Self::Error> {
+        self.0.fill_solid(a)?;
+        Ok(())
+    }
+}
+
+// control: an adapter that hands the inner error type on
+pub struct Forwarding<T>(pub T);
+impl<T: DrawTarget> DrawTarget for Forwarding<T> {
+    type Error = T::Error;
+    // expect: q tail
+    fn fill_solid(&mut self, a: u32) -> Result<(), Self::Error> {
+        self.0.fill_solid(a)?;
+        self.0.fill_solid(a + 1)
+    }
+}
+
+// raw strings: the `"` inside `r#".."#` do not end the literal
+// violates
+// expect: discarded tail
+pub fn bad_between_raw_strings<D: DrawTarget>(t: &mut D) -> Result<(), D::Error> {
+    let s = r#"a"b"#; let _ = t.fill_solid(1); let u = r#"c"d"#;
+    t.fill_solid(2)
+}
+
+// a call site in the body of a local macro: the body is expanded somewhere else (here inside a closure
+// whose result is dropped), so what its `?` does is not known at the definition
+// violates
+// expect: unknown tail
+pub fn bad_macro_in_dropped_closure<D: DrawTarget>(t: &mut D) -> Result<(), D::Error> {
+    macro_rules! call {
+        ($t:expr, $a:expr) => {
+            $t.fill_solid($a)?
+        };
+    }
+    let g = |t: &mut D| -> Result<(), D::Error> {
+        call!(t, 1);
+        Ok(())
+    };
+    let _ = g(t);
+    t.fill_solid(2)
+}
+
+// a call site in a macro outside every function: attributed to the macro item
+// expect: unknown
+macro_rules! swallow {
+    ($t:expr, $a:expr) => {
+        let _ = $t.fill_solid($a);
+    };
+}
+
+// violates (through the macro's site above; its own visible site is fine)
+// expect: tail
+pub fn bad_uses_swallow_macro<D: DrawTarget>(t: &mut D) -> Result<(), D::Error> {
+    swallow!(t, 1);
+    t.fill_solid(2)
+}
+
+// control: a whole `fn` item inside a macro body is classified like any other function
+macro_rules! generate_fn {
+    () => {
+        // expect: q tail
+        pub fn ok_generated_by_macro<D: DrawTarget>(t: &mut D) -> Result<(), D::Error> {
+            t.fill_solid(1)?;
+            t.fill_solid(2)
+        }
+    };
+}
+generate_fn!();
+
+// a home-made adaptor that does not stop at the first error (one NAMED try_for_each: see
+// drawsites_cases_owntry.rs)
+pub struct Twice;
+impl Twice {
+    pub fn each_twice<E>(&self, mut f: impl FnMut(u32) -> Result<(), E>) -> Result<(), E> {
+        let a = f(1);
+        let b = f(2);
+        a.and(b)
+    }
+}
+
+// violates
+// expect: discarded
+pub fn bad_homemade_adaptor<D: DrawTarget>(t: &mut D) -> Result<(), D::Error> {
+    Twice.each_twice(|i| t.fill_solid(i))
+}
+
+// ---- the third statement audit's false alarms: harmless forms that do propagate --------------------
+
+// expect: ret ret tail
+pub fn ok_return_of_call<D: DrawTarget>(t: &mut D, c: u32) -> Result<(), D::Error> {
+    if c == 0 { return t.fill_solid(1) }
+    match c {
+        1 => return t.fill_solid(2),
+        _ => {}
+    }
+    t.fill_solid(3)
+}
+
+// expect: match_ret match_ret tail
+pub fn ok_at_err_return<D: DrawTarget>(t: &mut D) -> Result<(), D::Error> {
+    match t.fill_solid(1) { Ok(()) => {}, e @ Err(_) => return e }
+    match t.fill_solid(2) {
+        Ok(()) => {}
+        e @ Err(_) => {
+            return e;
+        }
+    }
+    t.fill_solid(3)
+}
+
+// violates
+// expect: discarded discarded discarded tail
+pub fn bad_at_err_forms<D: DrawTarget>(t: &mut D, c: bool) -> Result<(), D::Error> {
+    match t.fill_solid(1) {
+        e @ Err(_) if c => return e,
+        _ => {}
+    }
+    match t.fill_solid(2) {
+        Ok(()) => {}
+        e @ Err(_) => {
+            let _ = t.fill_solid(40);
+            return e;
+        }
+    }
+    t.fill_solid(3)
+}
+
+// return-type aliases
+pub type Res<E> = Result<(), E>;
+pub type ResOf<D> = Result<(), <D as DrawTarget>::Error>;
+pub type Wrapped<E> = Result<(), Wrap<E>>;
+
+// expect: q tail
+pub fn ok_alias<D: DrawTarget>(t: &mut D) -> Res<D::Error> {
+    t.fill_solid(1)?;
+    t.fill_solid(2)
+}
+
+// expect: q tail
+pub fn ok_alias_qualified<D: DrawTarget>(t: &mut D) -> ResOf<D> {
+    t.fill_solid(1)?;
+    ok_alias(t)
+}
+
+// the functions above are error-returning functions themselves: their call sites are followed
+// violates
+// expect: discarded tail
+pub fn bad_alias_caller<D: DrawTarget>(t: &mut D) -> Result<(), D::Error> {
+    let _ = ok_alias(t);
+    ok_alias_qualified(t)
+}
+
+// violates (the caller does not get the target's error value)
+// expect: unknown
+pub fn bad_alias_wrapped<D: DrawTarget>(t: &mut D) -> Wrapped<D::Error> {
+    t.fill_solid(1)?;
+    Ok(())
 }
 
 #[cfg(test)]
